@@ -16,7 +16,7 @@ func init() {
 		Level: "exploration",
 		Rule: "cases = every sequence of <=2 (quick) / <=3 (thorough) of 24 step kinds x 6 function suffixes x 24 battery documents, every valid comparison " +
 			"(6 operators x 13 operand kinds x both orders, regex) and logical shape x 10 filter documents x both number decodings, then seeded random ASTs " +
-			"(<=5 steps, filters nested <=2) on random and path-directed documents; a case is non-trivial when the path has >=2 steps or a filter and SPEC " +
+			"(<=5 steps, filters nested <=2) on random and path-directed documents, then every string of the hostile generators (the suite's ~1200 paths, their mutations, spliced and grammar-derived strings, token soup) that the library ACCEPTS, with its AST recovered from the grammar's own parse tree; the oracle itself is validated in every run against the 889 applicable expectations pinned in the library's test file; a case is non-trivial when the path has >=2 steps or a filter and SPEC " +
 			"selects something or the failure is not at the first step; distinct = distinct (path text, document, decode mode)",
 		Assumptions: []string{
 			"SPEC (internal/spec) reads the intended semantics correctly; it is cross-checked by the oracle-free relations C08/C09/C10/C18",
@@ -26,14 +26,38 @@ func init() {
 		Plan: func(tier string, seed int64) *harness.Plan {
 			sys := newSysCases(tier)
 			nRand := size(tier, 200000, 3000000)
+			nStr := size(tier, 100000, 1500000)
+			var src *strSource
 			return &harness.Plan{
-				N:     sys.n() + nRand,
-				Setup: func(c *harness.Ctx) { hooksOn() },
+				N: sys.n() + nRand + nStr,
+				Setup: func(c *harness.Ctx) {
+					hooksOn()
+					src = newStrSource()
+					if src.err == nil {
+						// the oracle's own credentials: SPEC against the expectations pinned in the library's test file
+						ran, _, bad, lines := suiteSelfTest(src.sg.Grammar)
+						c.HookMax("max_spec_selftest_suite_cases_run", uint64(ran))
+						c.HookMax("max_spec_selftest_disagreements", uint64(bad))
+						for _, l := range lines {
+							c.Inconclusive("SPEC disagrees with the suite's pinned expectation (oracle problem, not a verdict): " + short(l, 300))
+						}
+					}
+				},
 				Run: func(c *harness.Ctx, k int) {
 					var d *diffCase
 					if k < sys.n() {
 						d = sys.get(k)
 						c.Tally("systematic")
+					} else if k >= sys.n()+nRand {
+						if src.err != nil {
+							return
+						}
+						r := c.Rand()
+						var ok bool
+						if d, ok = stringCase(c, r, gen.New(r), src); !ok {
+							return
+						}
+						c.Tally("parsable-string")
 					} else {
 						r := c.Rand()
 						d = randomCase(r, gen.New(r), r.Intn(4) == 0)
